@@ -359,10 +359,70 @@ func storeVia(name string, f func() any) (s stored) {
 	return stored{tree: fromAny(x), raw: x}
 }
 
+// A rejected value leaves nothing behind: after an insertion panicked on an unsupported element nested inside a []any / map[string]any
+// (and the caller recovered), the same Go slice / map - repaired - is accepted through every entry point and stored like a fresh one.
+func rejectedThenRepaired(f *failer) {
+	type bad struct{ x int }
+	inner := []any{1, bad{1}, "s"}
+	innerM := map[string]any{"a": 1, "bad": bad{2}}
+	outer := []any{inner, innerM, 2.5}
+	outerM := map[string]any{"l": inner, "m": innerM}
+	stores := []func(any) any{
+		func(v any) any { return at.NewList(v) },
+		func(v any) any { return at.NewList().Add(v) },
+		func(v any) any { return at.NewList(0).Insert(0, v) },
+		func(v any) any { return at.NewList(0).Replace(0, v) },
+		func(v any) any { return at.NewListOf(v, 2) },
+		func(v any) any { return at.NewObject("k", v) },
+		func(v any) any { return at.NewObject().Set("k", v) },
+		func(v any) any { return at.NewObject().SetTF(".k", v) },
+		func(v any) any { return at.NewList().SetTF("#0", v) },
+	}
+	for _, st := range stores {
+		for _, v := range []any{outer, outerM} {
+			if !try(func() { st(v) }) {
+				f.fail("a value with an unsupported element nested inside was accepted")
+				return
+			}
+		}
+	}
+	inner[1] = 2
+	delete(innerM, "bad")
+	want := canon(at.NewList([]any{[]any{1, 2, "s"}, map[string]any{"a": 1}, 2.5}))
+	wantM := canon(at.NewList(map[string]any{"l": []any{1, 2, "s"}, "m": map[string]any{"a": 1}}))
+	for k, st := range stores {
+		for j, v := range []any{outer, outerM} {
+			var got any
+			if try(func() { got = st(v) }) {
+				f.fail("after an earlier insertion of the same Go slice/map was rejected (unsupported nested element, panic recovered) and the element was repaired, entry point %d panics on it", k)
+				return
+			}
+			var stored any
+			switch c := got.(type) {
+			case at.List:
+				stored = c.Get(0)
+			case at.Object:
+				stored = c.Get("k")
+			}
+			w := want
+			if j == 1 {
+				w = wantM
+			}
+			if canon(at.NewList(stored)) != w {
+				f.fail("a repaired Go slice/map is stored differently after an earlier rejected insertion (entry point %d)", k)
+				return
+			}
+		}
+	}
+}
+
 func genC12(r *R, n int, tier string, out *Out) {
 	for i := 0; i < n; i++ {
 		g := r.govValue(3)
 		f := &failer{pred: true}
+		if i%97 == 5 {
+			rejectedThenRepaired(f)
+		}
 		v := g.v
 		entries := []struct {
 			name string
